@@ -861,7 +861,8 @@ func (w *_assembler) assignUInt(uin datamodel.UintNode) error {
 		if err != nil {
 			return err
 		}
-		if kindUint[w.val.Kind()] {
+		// (the Go value may be held by pointer: a nullable or optional integer)
+		if kindUint[nonPtrType(w.val).Kind()] {
 			w.createNonPtrVal().SetUint(i)
 		} else {
 			// TODO: check for overflow
@@ -904,7 +905,7 @@ func (w *_assembler) AssignInt(i int64) error {
 		if isAny {
 			// Any means the Go type must receive a datamodel.Node
 			w.createNonPtrVal().Set(reflect.ValueOf(basicnode.NewInt(i)))
-		} else if kindUint[w.val.Kind()] {
+		} else if kindUint[nonPtrType(w.val).Kind()] { // (the Go value may be held by pointer: a nullable or optional integer)
 			if i < 0 {
 				// TODO: write a test
 				return fmt.Errorf("bindnode: cannot assign negative integer to %s", w.val.Type())
